@@ -54,3 +54,5 @@ Proof.
 Qed.
 Lemma truthy_dict (d:delta) : (if negb (isnil d) then d else []) = d.
 Proof. destruct d; reflexivity. Qed.
+Lemma truthy_dict' (d:delta) : (if isnil d then [] else d) = d.
+Proof. destruct d; reflexivity. Qed.
